@@ -275,6 +275,7 @@ func runConnCase(c ccaseJSON) string {
 		panic(err)
 	}
 	rx, tx := ratelimit.VerifLimiters(l)
+	c.HasRx, c.HasTx = rx != nil, tx != nil // what the accepted connection really has
 	tok := func(lm *rate.Limiter) float64 {
 		if lm == nil {
 			return 0
